@@ -58,8 +58,8 @@ pub fn gen(r: &mut Rng) -> Value {
         }
         _ => {
             let n = 1 + r.below(3);
-            let lines: Vec<Value> = (0..n).map(|_| if r.chance(1, 6) { json!({"blank": r.chance(1, 2)}) } else { gen_instr(r) }).collect();
-            json!({"kind": "script", "lines": lines})
+            let lines: Vec<Value> = (0..n).map(|_| if r.chance(1, 6) { json!({"blank": r.chance(1, 2), "blank_kind": r.below(6)}) } else { gen_instr(r) }).collect();
+            json!({"kind": "script", "lines": lines, "eol": r.pick(&["\n", "\n", "\r\n"])})
         }
     }
 }
@@ -104,7 +104,12 @@ fn render_arg(a: &Value, first: bool) -> String {
 
 fn render_line(i: &Value) -> String {
     if !i["blank"].is_null() {
-        return if i["blank"].as_bool().unwrap() { "   ".to_string() } else { "  # just a comment".to_string() };
+        return match i["blank_kind"].as_u64().unwrap_or(0) {
+            1 => "#!/usr/bin/env duck".to_string(),
+            2 => "#!".to_string(),
+            3 => "#".to_string(),
+            _ => if i["blank"].as_bool().unwrap() { "   ".to_string() } else { "  # just a comment".to_string() },
+        };
     }
     let mut s = sp(i["lead"].as_u64().unwrap());
     if let Some(l) = i["label"].as_str() {
@@ -204,7 +209,7 @@ pub fn run(input: &Value) -> Option<Value> {
                 return None;
             }
             let text: Vec<String> = lines.iter().map(render_line).collect();
-            let text = text.join("\n");
+            let text = text.join(input["eol"].as_str().unwrap_or("\n"));
             match parser::parse_text(&text) {
                 Err(e) => Some(json!({"text": text, "what": "documented rendering rejected", "error": e.to_string()})),
                 Ok(instrs) => {
